@@ -52,6 +52,9 @@ type Ptr struct {
 	cell *Cell
 	path []int
 	fn   *FuncPtrTarget // unused
+	sym  *Term          // symbolic element index below path (read-only table lookups)
+	symN int
+	symOff int
 }
 type FuncPtrTarget struct{}
 
